@@ -107,14 +107,10 @@ def litLike : Tok → Bool
   | _ => false
 
 theorem litLike_litCore (nm : Str) (neg : Bool) : litLike (.word (litCore nm neg)) = true := by
-  have h1 : "\\overline{".toList = '\\' :: 'o' :: "verline{".toList := rfl
-  have h2 : "{\\overline{".toList = '{' :: '\\' :: "overline{".toList := rfl
   cases neg
   · cases nm <;> simp [litCore, litLike]
   · simp only [litCore, if_true]
-    split
-    · rw [h1]; simp [litLike]
-    · rw [h2]; simp [litLike]
+    split <;> simp [litLike, overlineOpen]
 
 theorem enumFrom_mem {α} : ∀ (l : List α) (i j : Nat) (x : α), l[j]? = some x → (i + j, x) ∈ enumFrom i l
   | [], _, j, x, h => by simp at h
